@@ -100,7 +100,7 @@ def gen_macro(rng, prog, idx, callable_rules, global_syms):
         return n
 
     def template(o, callee_is_macro):
-        if o[0] == 'sub' and o[2] == OPND:
+        if o[0] in ('sub', 'gsub') and o[2] == OPND:
             if rng.chance(0.2):
                 if OPND in sub_params and rng.chance(0.5):
                     n = sub_params[OPND]
@@ -118,18 +118,34 @@ def gen_macro(rng, prog, idx, callable_rules, global_syms):
             if inner.startswith('{t'):
                 mac.features.add('opnd-by-value')
             return rng.choice(OPND_FORMS) % inner
-        if o[0] == 'sub':
+        if o[0] in ('sub', 'gsub'):
             sub = o[2]
-            if rng.chance(0.25):
+            if o[0] == 'gsub':
+                mac.features.add('glued-sub-operand')
+            if rng.chance(0.35):
                 regs = [s for s in isa.subs if s[0] == sub][0][1]
-                mac.features.add('sub-literal')
-                return rng.choice(regs)[0]
+                alt = rng.choice(regs)[0]
+                if '{' not in alt:
+                    mac.features.add('sub-literal')
+                    return alt
+                # an alternative with an expression parameter (`[{a: u8}]`, `#{a}`): the expression written inside it in
+                # the block body comes from the same pool as a plain expression operand (labels, by-value locals, `{p}`)
+                mac.features.add('opnd-with-expression')
+                mt = re.search(r'\{\s*\w+\s*(?::\s*(\w+))?\s*\}', alt)
+                inner = template(('expr', 'a', mt.group(1), ('', '')), callee_is_macro)
+                if label and inner.strip() == label:
+                    mac.features.add('opnd-local-label')
+                if inner.startswith('{t'):
+                    mac.features.add('opnd-by-value')
+                return alt[:mt.start()] + inner + alt[mt.end():]
             if sub in sub_params and rng.chance(0.6):
                 n = sub_params[sub]
             else:
                 n = next(pnames)
                 mac.ops.append(('sub', n, sub))
                 sub_params[sub] = n
+                if any('{' in alt for alt, _ in [s_ for s_ in isa.subs if s_[0] == sub][0][1]):
+                    mac.has_typed = True          # an expression inside the operand is range-checked where the call stands
             mac.features.add('sub-param')
             return '{%s}' % n
         typ = o[2]
@@ -203,11 +219,12 @@ def extend_with_macros(rng, prog, nmac=None):
 
 
 def gen_arg(rng, prog, o, syms):
-    if o[0] == 'sub' and o[2] == OPND:
+    if o[0] in ('sub', 'gsub') and o[2] == OPND:
         return rng.choice(OPND_FORMS) % gen_arg(rng, prog, ('expr', 'a', 'u8', ('', '')), syms)
-    if o[0] == 'sub':
+    if o[0] in ('sub', 'gsub'):
         sub = [s for s in prog.isa.subs if s[0] == o[2]][0]
-        return rng.choice(sub[1])[0]
+        # alternatives with an expression parameter (`[{a: u8}]`) are instantiated with an expression
+        return re.sub(r'\{[^}]*\}', lambda mo: gen_arg(rng, prog, ('expr', 'a', 'u8', ('', '')), syms) if rng.chance(0.5) else str(rng.below(8)), rng.choice(sub[1])[0])
 
     def expr(d=0):
         k = rng.below(100)
@@ -382,6 +399,9 @@ def prod_size(r):
     if m:
         prod = m.group(1)
     types = {o[1]: o[2] for o in r['ops'] if o[0] == 'expr'}
+    mt = re.fullmatch(r'[^?]* \? (0x[0-9a-fA-F]+) : (0x[0-9a-fA-F]+)', prod)
+    if mt:                                  # two literal encodings selected by a condition: fine if both are whole bytes
+        return 8 if all((len(g) - 2) % 2 == 0 for g in mt.groups()) else None
     total = 0
     for piece in prod.split(' @ '):
         piece = piece.strip()
@@ -409,7 +429,7 @@ def byte_align(prog):
             continue
         n = prod_size(r)
         if n is None:
-            raise ValueError('unrecognised production shape: ' + r['prod'])
+            return False                    # a production shape this module does not know: the caller regenerates
         if n % 8:
             pad = '0b' + '0' * (8 - n % 8)
             m = re.fullmatch(r'\{ (assert\([^)]*\)), (.*) \}', r['prod'].strip())
@@ -417,6 +437,7 @@ def byte_align(prog):
     for i, it in enumerate(prog.items):
         if it[0] == 'data' and it[1] is not None and it[1] % 8:
             prog.items[i] = ('data', (it[1] + 7) // 8 * 8, it[2])
+    return True
 
 
 def has_const_cycle(prog):
@@ -435,16 +456,41 @@ def has_const_cycle(prog):
     return False
 
 
+def supported(prog):
+    """only operand kinds and item kinds this module knows how to template, inline and align"""
+    for r in prog.isa.rules:
+        for o in r['ops']:
+            if o[0] not in ('reg', 'expr', 'sub', 'gsub'):
+                return False
+            if o[0] == 'gsub' and o is not r['ops'][0]:
+                return False
+    names = [n for n, _ in prog.isa.subs]
+    if any(o[2] not in names for r in prog.isa.rules for o in r['ops'] if o[0] in ('sub', 'gsub')):
+        return False
+    return all(it[0] in ('label', 'const', 'instr', 'data', 'res', 'align', 'addr') for it in prog.items)
+
+
 def gen_base(rng, size_static):
-    while True:
-        prog = asm_gen.gen_prog(rng, size_static=size_static, collide=False, boundary=False, tame=True)
-        if not has_const_cycle(prog):
-            return prog
+    """a byte-aligned asm_gen program without self-referential constants; asm_gen grows: whatever this module cannot
+    handle (unknown operand kinds, production shapes whose size it cannot read) is regenerated, never an exception"""
+    for _ in range(200):
+        try:
+            prog = asm_gen.gen_prog(rng, size_static=size_static, collide=False, boundary=False, tame=True)
+            if not has_const_cycle(prog) and supported(prog) and byte_align(prog):
+                return prog
+        except (KeyError, ValueError, IndexError, TypeError, AttributeError):
+            continue
+    # fallback: a fixed tiny program, so that a stream never dies on generator drift
+    isa = asm_gen.Isa()
+    isa.rules = [dict(m='nop', ops=[], prod='0x00'), dict(m='ld', ops=[('expr', 'x', 'u8', ('', ''))], prod='0x55 @ x')]
+    prog = asm_gen.Prog(isa)
+    prog.items = [('label', 'l0'), ('instr', 0, []), ('instr', 1, ['l0 + 1'])]
+    prog.names = ['l0']
+    return prog
 
 
 def gen_macro_case(rng, size_static=True):
     prog = gen_base(rng, size_static)
-    byte_align(prog)
     _, first_macro = extend_with_macros(rng, prog)
     add_macro_calls(rng, prog, first_macro)
     # a few direct uses of the expression-carrying sub-rule operand outside macros
@@ -606,7 +652,6 @@ def gen_fn_case(rng):
     first pass in front of the call sites (feature 'macro-item': the extracted model cannot read the twin then)."""
     cascading = rng.chance(0.4)
     prog = gen_base(rng, not cascading)
-    byte_align(prog)
     feats0 = set(['cascading-isa']) if cascading else set()
     if rng.chance(0.4):
         labs = [it[1] for it in prog.items if it[0] == 'label']
@@ -782,3 +827,47 @@ def asm_nest(k, selfrec=False):
 
 def asm_nest_expected(limit, k):
     return None if 2 * k - 1 >= limit else '10010000'
+
+
+# ------------------------------------------------------------------------------------------------ budget family
+def gen_budget_case(rng):
+    """An asm block with a label of its own that cannot settle where the block lies in the first pass but settles where it
+    finally lies (something in front of it only gets its size in the second pass), followed by an instruction with two
+    consistent encodings (short / long): what the enclosing pass is told about the unsettled block must not depend on
+    the iteration budget, or the bistable instruction locks into a budget-dependent form.
+      ld x : 3 bytes if x <= T, 2 bytes if x > T;  the block = n x `ld label` + `label:` at address A has label = A + 3n
+      (all long) or A + 2n (all short): no consistent layout iff A + 2n <= T < A + 3n; at A + K it is consistent (short)
+      iff A + K + 2n > T.   jr tgt : 2 bytes if tgt - $ <= D, else 4 bytes; with m bytes between it and tgt both forms
+      are consistent iff 2 + m <= D < 4 + m."""
+    n = rng.range(2, 4)
+    p = rng.range(0, 3)                       # nops in front
+    K = rng.range(1, 5)                       # bytes reserved in front of the block, known only from the second pass on
+    d = rng.range(0, min(n - 1, K - 1))
+    T = p + 2 * n + d
+    m = rng.range(0, 5)
+    D = 2 + m + rng.below(2)
+    settle_elsewhere = rng.chance(0.25)       # variant: the block is consistent from the start (control group)
+    if settle_elsewhere:
+        T = p + 3 * n + rng.range(0, 3)
+    rules = [
+        'ld {x} => { assert(x <= %d), 0x11 @ x`16 }' % T,
+        'ld {x} => { assert(x > %d), 0x22 @ x`8 }' % T,
+        'jr {x} => { assert(x - $ <= %d), 0x33 @ (x - $)`8 }' % D,
+        'jr {x} => { assert(x - $ > %d), 0x44 @ x`24 }' % D,
+        'nop => 0x00',
+    ]
+    inner = ['ld label'] * n
+    lab_at = rng.choice([n, n, n - 1])
+    inner.insert(lab_at, 'label:')
+    nested = rng.chance(0.3)
+    if nested:
+        rules.append('blk0 => asm {\n        %s\n    }' % '\n        '.join(inner))
+        rules.append('blk => asm {\n        blk0\n    }')
+    else:
+        rules.append('blk => asm {\n        %s\n    }' % '\n        '.join(inner))
+    dep = rng.choice(['tgt - tgt + %d', '(tgt + %d) - tgt', 'tgt * 0 + %d']) % K
+    lines = ['nop'] * p + ['#res r', 'blk', 'jr tgt'] + ['#d8 ' + ', '.join('0x%02x' % rng.below(256) for _ in range(m))] * (1 if m else 0) + ['tgt:']
+    if rng.chance(0.5):
+        lines += ['nop'] * rng.range(0, 2) + ['blk'] if rng.chance(0.3) else ['nop']
+    lines.append('r = ' + dep)
+    return '#ruledef\n{\n    %s\n}\n%s\n' % ('\n    '.join(rules), '\n'.join(lines))
